@@ -51,7 +51,14 @@ def run(ctx):
     ok, thms, log = kernel.proof_step(ctx)
     rng = random.Random(ctx.seed)
     n = 400 if ctx.tier == "quick" else 4000
-    cases, results, discarded, rejected = G.prepare(rng, n, ctx.repo_copy)
+    try:
+        cases, results, discarded, rejected = G.prepare(rng, n, ctx.repo_copy)
+    except (RuntimeError, subprocess.TimeoutExpired) as e:
+        # the implementation could not be run to completion on the generated schemas (crash outside the recorded
+        # calls, or no termination within the time limit): the property is no longer shown to hold
+        ctx.violation({"what": "the graph / board implementation could not be run on the generated schemas", "detail": str(e)[-1500:]}, no_input=True)
+        ctx.coverage.update({"evaluations": 0, "distinct_nontrivial": 0, "rule": "runner failed", "samples": [], "disagreements_checked": 1})
+        return
     files = []
     for k in range(0, len(cases), G.MAX_CASES_PER_FILE):
         files.append(("graph_%03d" % (k // G.MAX_CASES_PER_FILE), G.coq_file(cases[k:k + G.MAX_CASES_PER_FILE], results[k:k + G.MAX_CASES_PER_FILE])))
